@@ -31,6 +31,7 @@ func genC10(seed uint64, tier string) *Plan {
 	p.Knobs["ntopics"] = float64(nt)
 	p.Knobs["npeers"] = float64(r.rng(1, 4))
 	p.Knobs["skip_atomic"] = float64(b2i(r.chance(0.35)))
+	p.Knobs["shared_topic_params"] = float64(b2i(r.chance(0.2)))
 	p.Knobs["topic_cap"] = []float64{0, 0, 5, 50}[r.intn(4)]
 	p.Knobs["app_weight"] = []float64{0, 1, 2.5}[r.intn(3)]
 	p.Knobs["ip_weight"] = []float64{0, -1, -7}[r.intn(3)]
@@ -491,11 +492,29 @@ func runC10(s *sim) {
 		hosts = append(hosts, fh)
 		ids = append(ids, fh.id)
 	}
+	// the model keeps its own copy of the parameters: what the library does to the structs it was
+	// given (they may be shared between topics, below) must not reach the model
+	mp := *sp
+	mp.Topics = map[string]*TopicScoreParams{}
+	for t, tp := range sp.Topics {
+		c := *tp
+		mp.Topics[t] = &c
+	}
+	if p.kb("shared_topic_params") && len(topics) > 1 {
+		// one parameter struct for all topics, as a configuration built in a loop over topic names has
+		shared := sp.Topics[topics[0]]
+		for _, t := range topics {
+			sp.Topics[t] = shared
+			c := *shared
+			mp.Topics[t] = &c
+		}
+		s.probe("topics_share_one_parameter_struct")
+	}
 	ps := newPeerScore(sp, discardLogger)
 	ps.host = h
 	created := s.now()
 	go ps.background(ctx)
-	m := &refModel{P: sp, peers: map[int]*refPeer{}, ipOf: map[int]string{}, ipSet: map[string]map[int]bool{}, app: map[int]float64{}, now: s.now, wl: sp.IPColocationFactorWhitelist}
+	m := &refModel{P: &mp, peers: map[int]*refPeer{}, ipOf: map[int]string{}, ipSet: map[string]map[int]bool{}, app: map[int]float64{}, now: s.now, wl: sp.IPColocationFactorWhitelist}
 	ipPool := []string{"10.9.0.7", "10.9.0.7", "10.9.1.5"} // two peers may share an address; the third is in the whitelisted net
 	// message bookkeeping
 	type msgRec struct {
@@ -574,7 +593,7 @@ func runC10(s *sim) {
 			}
 			if st != nil && mp != nil {
 				for t, ts := range st.topics {
-					tp := sp.Topics[t]
+					tp := m.P.Topics[t]
 					mt := mp.topics[t]
 					if tp == nil || mt == nil {
 						continue
@@ -691,7 +710,7 @@ func runC10(s *sim) {
 			} else {
 				for t, ts := range mp.topics {
 					ts.fmd = 0
-					tp := sp.Topics[t]
+					tp := m.P.Topics[t]
 					if ts.inMesh && ts.active && ts.mmd < tp.MeshMessageDeliveriesThreshold {
 						d := tp.MeshMessageDeliveriesThreshold - ts.mmd
 						ts.mfp += d * d
@@ -723,7 +742,7 @@ func runC10(s *sim) {
 			}
 			ps.Prune(ids[i], t)
 			ts := mp.topics[t]
-			tp := sp.Topics[t]
+			tp := m.P.Topics[t]
 			if ts.active && ts.mmd < tp.MeshMessageDeliveriesThreshold {
 				d := tp.MeshMessageDeliveriesThreshold - ts.mmd
 				ts.mfp += d * d
@@ -783,7 +802,7 @@ func runC10(s *sim) {
 				r.rec.peers[i] = true
 			case 1:
 				r.rec.peers[i] = true
-				tp := sp.Topics[r.topic]
+				tp := m.P.Topics[r.topic]
 				if tp != nil && s.now()-r.rec.validated == tp.MeshMessageDeliveriesWindow {
 					s.probe("duplicate_exactly_at_window_edge")
 				}
@@ -879,7 +898,7 @@ func runC10(s *sim) {
 			}
 		case "recap":
 			t := topics[int(it.a(0))%len(topics)]
-			old := sp.Topics[t]
+			old := m.P.Topics[t]
 			np2 := *old
 			switch it.a(1) {
 			case 0:
@@ -897,6 +916,8 @@ func runC10(s *sim) {
 				// keep the parameter set sensible (cap >= threshold is not validated but assumed by the spec)
 			}
 			ps.SetTopicScoreParams(t, &np2)
+			mc := np2
+			m.P.Topics[t] = &mc
 			// model: counters above a lowered cap are cut to the cap
 			for _, mp := range m.peers {
 				if ts := mp.topics[t]; ts != nil {
